@@ -99,10 +99,20 @@ def all_tables(facts):
                 raise F.AnchorMissing("%s::%s" % (m, meth))
             out[k] = table(facts, k, AFF())
         dk = "<%s as Default>::default" % m
-        if dk not in facts.fns:
-            raise F.AnchorMissing(dk)
-        out[dk] = table(facts, dk)
+        out[dk] = default_table(facts, m)
     return out
+
+
+def default_table(facts, m):
+    """Rows of `<M as Default>::default` — from the hand-written impl, or from the derive."""
+    dk = "<%s as Default>::default" % m
+    if dk in facts.fns:
+        return table(facts, dk)
+    v = emit.Interp(facts).derived_default(m)
+    if v is None:
+        raise F.AnchorMissing(dk)
+    st = emit.State()
+    return [dict(cond="", tokens=[], text="", outcome=outcome(st, v), effects=[], unknown=[], st=st, val=v)]
 
 
 def plain(rows):
@@ -162,9 +172,46 @@ def split_top(s):
     return out
 
 
+_COMPL = {"True": "False", "False": "True", "Some": "None", "None": "Some"}
+
+
+def minimise(table):
+    """Merge rows that behave identically and differ only in the value of one two-valued condition (x=True / x=False,
+    o=Some / o=None): a function that tests a condition earlier or later than another, or not at all on a path where it
+    makes no difference, has the same minimal table."""
+    items = [(frozenset(k.split(" ∧ ")) if k else frozenset(), k.split(" ∧ ") if k else [], row) for k, row in table.items()]
+    changed = True
+    while changed:
+        changed = False
+        for i in range(len(items)):
+            for j in range(i + 1, len(items)):
+                a, oa, ra = items[i]
+                b, ob, rb = items[j]
+                if ra != rb or len(a) != len(b):
+                    continue
+                da, db = a - b, b - a
+                if len(da) == 1 and len(db) == 1:
+                    x, y = next(iter(da)), next(iter(db))
+                    sx, _, vx = x.rpartition("=")
+                    sy, _, vy = y.rpartition("=")
+                    if sx and sx == sy and _COMPL.get(vx) == vy:
+                        common = a & b
+                        items[i] = (common, [t for t in oa if t in common], ra)
+                        del items[j]
+                        changed = True
+                        break
+            if changed:
+                break
+    out = {}
+    for atoms, order, row in items:
+        key = " ∧ ".join(order)
+        out.setdefault(key, row)
+    return out
+
+
 def diff_tables(c, rule, site, got_rows, want_rows, what, only=None, fields=("tokens", "outcome", "effects")):
-    """One obligation per semantic row: extracted == frozen."""
-    g, w = expand(got_rows), expand(want_rows)
+    """One obligation per semantic row: extracted == frozen (both in minimal form)."""
+    g, w = minimise(expand(got_rows)), minimise(expand(want_rows))
     n = 0
     for key in sorted(set(g) | set(w)):
         if only is not None and not only(key):
